@@ -127,6 +127,9 @@ package sniffing
 //@   loop 1
 //@     invariant 0 <= lineStart && lineStart <= len(data) + 1
 //@     invariant lineStart == 0 || lineStart == len(data) + 1 || (lineStart >= 2 && data[lineStart-2] == httpLineSep[0] && data[lineStart-1] == httpLineSep[1])
+// the header block ends at the first empty line: no further line is looked at after one (the message body is
+// never searched for a Host line)
+//@     back len(line) != 0
 
 //@ func (*Sniffer).SniffHttp
 //@   requires s.buf != nil && len(httpLineSep) == 2
@@ -157,3 +160,21 @@ package sniffing
 //@   dyncalls noeffect
 //@   modifies *
 //@   at return 4 before-defers assert !errors.Is(err, ErrNeedMore)
+
+// C06 (held datagrams are replayed byte for byte): what AppendData keeps for the replay is the sniffer's OWN
+// copy of the datagram - the tail of its buffer starting where the buffer ended before the write - never
+// the caller's slice (the UDP ingress loop returns that one to a pool).
+//@ func (*Sniffer).AppendData
+//@   anchorsonly
+//@   nonilcheck
+//@   dyncalls noeffect
+//@   modifies *
+//@   ghostfn before() int
+//@   at call Buffer).Len#1 assume-after result == before()
+//@   at call Buffer).Write#1 assert a1.$base == data.$base && a1.$off == data.$off && len(a1) == len(data) && calls("Buffer).Len") == 1
+//@   ghostfn bbase() int
+//@   ghostfn boff() int
+//@   ghostfn blen() int
+//@   at call Buffer).Bytes#1 assert a0 == s.buf && calls("Buffer).Write") == 1
+//@   at call Buffer).Bytes#1 assume-after result.$base == bbase() && result.$off == boff() && len(result) == blen()
+//@   at call builtin:append#1 assert a0 == s.data && a1[0].$base == bbase() && a1[0].$off == boff() + before() && len(a1[0]) == blen() - before()
